@@ -18,7 +18,8 @@ case "$cmd" in
     echo "rig ready in $dir"
     ;;
   sync)
-    rsync -a --exclude harness/target --exclude replays --exclude .git --exclude harness/Cargo.toml /verif/ "$dir/verif/"
+    rsync -a --exclude harness/target --exclude replays --exclude .git /verif/ "$dir/verif/"
+    sed -i "s#\"/repo/#\"$dir/repo/#" "$dir/verif/harness/Cargo.toml"
     ;;
   try)
     patch="$1"; shift
